@@ -197,7 +197,7 @@ def expected_args(call, f, gt):
     return {n: T.tnorm(gt(call.params[n])) for n in named_params(f["params"]) if n in call.params}
 
 
-def check(lp, J, logs, k, get_type, prefix="C02", sampled=False, tracer_residue=None, live_frames=None, admitted=None, stats=None, traced_pred=None):
+def check(lp, J, logs, k, get_type, prefix="C02", sampled=False, tracer_residue=None, live_frames=None, admitted=None, stats=None, traced_pred=None, exempt=None):
     """Returns (violations, evaluated_count, info).
 
     logs: list of (CallTrace, journal_len_at_log_time)
@@ -261,6 +261,8 @@ def check(lp, J, logs, k, get_type, prefix="C02", sampled=False, tracer_residue=
                 continue
             if sampled or not definite(lp, f):
                 continue
+            if exempt is not None and exempt(c):
+                continue   # an injected fault hit the tracer while this very call started: its trace may legitimately be lost
             Vx.append(missing(prefix, c, f, lp, conflict_pred))
         return Vx, matched
 
@@ -279,6 +281,8 @@ def check(lp, J, logs, k, get_type, prefix="C02", sampled=False, tracer_residue=
                 p += 1
                 continue
             if not adm or sampled or not definite(lp, f):
+                continue
+            if exempt is not None and exempt(c):
                 continue
             Vx.append(missing(prefix, c, f, lp, conflict_pred))
         for fid, tr, pos in flogs[p:]:
